@@ -196,21 +196,22 @@ theorem merge_leaves_core (hc : cfg.Plain c) (hcp : cfg.copy = false) (hmc : cfg
     (hml : cfg.mergeLeaves = true) (hov : cfg.overriding = false)
     (t : Tree) (k : Nat) (fpar tpar : List Str) (l : Str) (F D : Tree)
     (hu : SibUnique t)
-    (hgf : GoodNames c (t.name :: fpar ++ [l])) (hgt : GoodNames c (t.name :: tpar ++ [l]))
-    (hF : getRel (fpar ++ [l]) t = some F) (hD : getRel (tpar ++ [l]) t = some D)
+    (fs : Str) (hfr : FromOK cfg t fs (fpar ++ [l]) F l) (hgt : GoodNames c (t.name :: tpar ++ [l]))
+    (hD : getRel (tpar ++ [l]) t = some D)
     (h1 : (fpar ++ [l]).isPrefixOf (tpar ++ [l]) = false)
     (h2 : (tpar ++ [l]).isPrefixOf (fpar ++ [l]) = false)
     (hFk : F.children ≠ [])
     (hnd : ((leavesRel F).map (fun pr => pr.2.name)).Nodup)
     (hclash : ∀ pr ∈ leavesRel F, ∀ y ∈ D.children, y.name ≠ pr.2.name) :
     ∃ t', copyOrShift cfg (st0 t k)
-        [(pathStr c t.name (fpar ++ [l]), some (pathStr c t.name (tpar ++ [l])))] = .ok (st0 t' k) ∧
+        [(fs, some (pathStr c t.name (tpar ++ [l])))] = .ok (st0 t' k) ∧
       SibUnique t' ∧
       (∀ pr ∈ leavesRel F, (flat t').filter (under (tpar ++ [l] ++ [pr.2.name]))
           = [(tpar ++ [l] ++ [pr.2.name], pr.2.id, pr.2.attrs)]) ∧
       (flat t').filter (fun e => !underAny (tpar ++ [l]) ((leavesRel F).map (·.2)) e)
         = (flat t).filter
             (fun e => !(((leavesRel F).map (fun pr => fpar ++ [l] ++ pr.1)).any (fun p => under p e))) := by
+  have hF := hfr.found
   let leaves := (leavesRel F).map (·.2)
   let lp := (leavesRel F).map (·.1)
   have hlp_ne : ∀ p ∈ lp, p ≠ [] := by
@@ -250,13 +251,11 @@ theorem merge_leaves_core (hc : cfg.Plain c) (hcp : cfg.copy = false) (hmc : cfg
     obtain ⟨a1, a2⟩ := incomparable_ext h2 h1 x.name q
     rw [not_under_both a1 a2 e he] at hpe; cases hpe
   refine ⟨modifyAt (fpar ++ [l]) (removeAll lp) ta, ?_, hres ▸ hsu', ?_, ?_⟩
-  · have hgf' : GoodNames c (t.name :: (fpar ++ [l])) := by simpa using hgf
-    have hgt' : GoodNames c (t.name :: (tpar ++ [l])) := by simpa using hgt
-    rw [copyOrShift_single _ _ (valid_move hc t k fpar tpar l (by simp [hmc]) hgf hgt)]
-    simp only [norm, normFrom_pathStr hc _ _ hgf', normTo_pathStr hc _ _ hgt']
+  · have hgt' : GoodNames c (t.name :: (tpar ++ [l])) := by simpa using hgt
+    rw [copyOrShift_single _ _ (valid_move hc (st0 t k) fs (fpar ++ [l]) F tpar l (by simp [hmc]) hfr hgt)]
+    simp only [norm, hfr.norm, normTo_pathStr hc _ _ hgt']
     unfold step
-    have hr := resolveFrom_pathStr hc (st0 t k) (fpar ++ [l]) (by simpa using hgf')
-    simp only [st0_tree, hF, Option.map_some] at hr
+    have hr := resolveFrom_of (st0 t k) hfr
     have hne : (fpar ++ [l] == tpar ++ [l]) = false := by
       cases h : (fpar ++ [l] == tpar ++ [l]) with
       | false => rfl
